@@ -95,7 +95,9 @@ CHECKS["C15"] = dict(
           "passes), ReplaceAll, MarkHostHealthy/Unhealthy on the current member object or on a retired object of that address (what a "
           "health round holding an old All() snapshot does), compared after every step with a model (addr -> current object): Healthy() == "
           "healthy members of the preferred tier, sorted, duplicate-free, current objects by pointer identity; All/Len/Exist == model; "
-          "Random() in the usable set or nil iff empty. part hysteresis: a real hc.Monitor with a scripted checker driven round by round "
+          "Random() in the usable set or nil iff empty. part set-exhaustive: EVERY history of 5 (thorough 6) operations over two addresses out "
+          "of 22 operations (add with either type, remove with the stored or a fresh object of either type, mark healthy/unhealthy on the "
+          "member or on the newest retired object, four replace-all lists): 5.1 million histories, same oracle after every step. part hysteresis: a real hc.Monitor with a scripted checker driven round by round "
           "(thresholds 0..5, generated result matrix, remove+re-add of a host between rounds): a flip needs >= threshold (>=1) consecutive "
           "contrary results and must happen by threshold+1. part concurrent: 2..8 goroutines mutate disjoint address ranges while readers "
           "assert sorted / single-tier / ever-member snapshots; the quiescent view is consistent. Non-trivial: history has a type change "
@@ -107,6 +109,7 @@ CHECKS["C15"] = dict(
                  "'>' vs '>=' in the threshold comparison both satisfy 'at least threshold'"],
     parts=[
         dict(name="set", test="TestSetModel", kind="rapid", checks={"quick": 6000, "thorough": 300000}, shards=16, timeout={"quick": 600, "thorough": 3000}),
+        dict(name="set-exhaustive", test="TestSetExhaustive", kind="plain", shards=16, timeout={"quick": 600, "thorough": 3000}),
         dict(name="hysteresis", test="TestHysteresis", kind="rapid", checks={"quick": 3000, "thorough": 150000}, shards=8, timeout={"quick": 600, "thorough": 3000}),
         dict(name="concurrent", test="TestSetConcurrent", kind="rapid", checks={"quick": 40, "thorough": 2000}, shards=4, timeout={"quick": 600, "thorough": 3000}),
         dict(name="markrace", test="TestMarkRace", kind="rapid", checks={"quick": 6, "thorough": 40}, shards=16, timeout={"quick": 600, "thorough": 3000}, shrinktime="5s"),
